@@ -711,7 +711,7 @@ def bool_binop(op):
     return run
 
 
-def compile_rvalue(prog, fn, rv):
+def compile_rvalue(prog, fn, rv, dst_type=None):
     k = rv[0]
     if k == 'use':
         return compile_operand(prog, fn, rv[1])
@@ -860,7 +860,7 @@ def compile_rvalue(prog, fn, rv):
         return lambda ex, fr: Closure(ty, [f(ex, fr) for f in fs])
     if k == 'adt':
         fs = [compile_operand(prog, fn, o) for o in rv[2]]
-        name, variant = prog.adt_ctor(rv[1])
+        name, variant = prog.adt_ctor(rv[1], dst_type)
         return lambda ex, fr: Adt(name, variant, [f(ex, fr) for f in fs])
     if k == 'len':
         g = compile_place(prog, fn, rv[1])
@@ -886,7 +886,7 @@ def compile_stmt(prog, fn, st):
                 raise Unsupported('set discriminant of non-adt')
         return f
     place, rv = st[1], st[2]
-    frv = compile_rvalue(prog, fn, rv)
+    frv = compile_rvalue(prog, fn, rv, place_type(fn, place))
     if place[0] == 'local':
         n = place[1]
 
